@@ -11,6 +11,7 @@ mod jitter_ref;
 mod jump;
 mod isaac_ref;
 mod stream_ref;
+mod clone_ref;
 mod serde_pos;
 #[cfg(feature = "send_sync_obligations")]
 mod send_sync;
@@ -26,6 +27,7 @@ fn main() {
         Some("jump") => jump::main(&args[2..]),
         Some("isaac-diff") => isaac_ref::main(&args[2..]),
         Some("stream-diff") => stream_ref::main(&args[2..]),
+        Some("clone-diff") => clone_ref::main(&args[2..]),
         _ => {
             eprintln!("usage: rngs-replay jitter <call> <script…>");
             2
